@@ -325,6 +325,9 @@ func (e *Enc) applyContract(ins ssa.Instruction, ct *Contract, callee *ssa.Funct
 	envPost := e.callEnv(callee, sig, params, args, argT, pre, h, rs)
 	envPost.owner = "call to " + name
 	for _, en := range ct.Ensures {
+		if en.Check {
+			continue // an obligation of the callee only
+		}
 		if t, ok := e.evalClause(ct, en.Expr, envPost); ok {
 			e.assert(implies(e.reach[e.curBlock], t))
 			if en.Define {
@@ -549,6 +552,9 @@ func (e *Enc) dispatchCall(ins ssa.Instruction, c *ssa.CallCommon, res *ssa.Call
 		envPost := e.callEnv(t.fn, t.fn.Signature, params, targs, targT, pre, h, rs)
 		envPost.owner = "call to " + t.name
 		for _, en := range t.ct.Ensures {
+			if en.Check {
+				continue
+			}
 			if tt, ok := e.evalClause(t.ct, en.Expr, envPost); ok {
 				e.assert(implies(and(e.reach[e.curBlock], t.guard), tt))
 			}
@@ -625,6 +631,9 @@ func (e *Enc) funcValueCall(ins ssa.Instruction, c *ssa.CallCommon, res *ssa.Cal
 		}
 		envPost := e.callEnv(nil, sig, params, args, argT, pre, h, rs)
 		for _, en := range ct.Ensures {
+			if en.Check {
+				continue
+			}
 			if t, ok := e.evalClause(ct, en.Expr, envPost); ok {
 				e.assert(implies(e.reach[e.curBlock], t))
 			}
